@@ -623,6 +623,19 @@ def decorate(rnd, tree):
     go(tree, u"/")
     links = []
     taken = set(files) | set(dirs)
+    edges = dict((d, set(x for x in dirs if x != d and (x.rsplit(u"/", 1)[0] or u"/") == d)) for d in dirs)
+
+    def reaches(a, b):
+        seen, todo = set(), [a]
+        while todo:
+            x = todo.pop()
+            if x == b:
+                return True
+            if x not in seen:
+                seen.add(x)
+                todo += list(edges[x])
+        return False
+    dir_links = 0
     for i in range(rnd.randint(2, 6)):
         where = rnd.choice(dirs)
         name = rnd.choice([u"ln%d" % i, u"ü%d" % i, u" l %d" % i, u"-l%d" % i])
@@ -635,10 +648,15 @@ def decorate(rnd, tree):
         elif files and r < 0.8:
             links.append(dict(k="sym", p=p, to=rnd.choice(files), how=rnd.choice(["rel", "abs"])))
         else:
-            cands = [d for d in dirs[1:] if not (where + u"/").startswith(d + u"/") and where != d]
-            if not cands:
+            # a link to a directory from which the link's own directory can be reached (through the tree or
+            # through earlier links) would make a cycle: the walk of such a tree does not end
+            cands = [d for d in dirs[1:] if not reaches(d, where)]
+            if not cands or dir_links >= 2:
                 continue
-            links.append(dict(k="sym", p=p, to=rnd.choice(cands), how=rnd.choice(["rel", "abs"])))
+            to = rnd.choice(cands)
+            edges[where].add(to)
+            dir_links += 1
+            links.append(dict(k="sym", p=p, to=to, how=rnd.choice(["rel", "abs"])))
         taken.add(p)
     return links
 
@@ -752,6 +770,8 @@ def host_expected(src):
             special = not info.is_dir and rtype != int(ResourceType.file)
             exp[p] = dict(is_dir=info.is_dir, t=raw["modified"], rtype=rtype, special=special,
                           data=None if info.is_dir or special else src.readbytes(p))
+            if len(exp) > 20000:
+                raise RuntimeError("the generated tree presents more than 20000 paths (links to directories nest too deep)")
             if info.is_dir:
                 go(p)
     go(u"/")
